@@ -10,7 +10,8 @@ dest = m.group(1) if m else "source/postcard/tests/seed_demo.rs"
 m = re.search(r"(cargo test[^\n`]*--test\s+[\w\-]+)", notes)
 cmd = m.group(1) if m else "cargo test -p postcard --offline --test seed_demo"
 testname = re.search(r"--test\s+([\w\-]+)", cmd).group(1)
-dest = os.path.join(os.path.dirname(dest), testname + ".rs")
+cands = [c for c in re.findall(r"(source/[\w\-/]+/tests/[\w\-]+\.rs)", notes) if os.path.basename(c) == testname + ".rs"]
+dest = cands[0] if cands else os.path.join(os.path.dirname(dest), testname + ".rs")
 if "--offline" not in cmd:
     cmd += " --offline"
 wt = f"/tmp/confirm-{os.path.basename(d)}"
